@@ -237,3 +237,9 @@ def install_set_of_array(R):
             return SymCountSet(c, v)
         return prev(E, v) if prev is not None else None
     R.set_hook = set_hook
+
+
+def install_contiguous(R):
+    # ASSUMED: ascontiguousarray / asfortranarray / asarray return the array itself when nothing has to change (worst case for aliasing)
+    for nm in ("numpy.ascontiguousarray", "numpy.asfortranarray"):
+        R.fns[nm] = lambda E, a, dtype=None, **kw: a
